@@ -278,3 +278,60 @@ CONCRETE["bounded:cue_or_not"] = {
     "bound": "9 files: valid sheets (upper/lower case), text without a FILE line (4 forms incl. empty and unquoted FILE), and three non-ASCII files",
     "timeout_s": 5.0,
 }
+
+
+# ================================================================== C09 / C17: what a parsed cue sheet is opened as
+@contract("smpl_extract.cuesheet:parse_cue_sheet#abstract", abstract=True, assumed=False,
+          note="shape of parse_cue_sheet's result only (its parsing contracts are above): a file name and a list of tracks with a mode string")
+def _pcs_abs(c):
+    c.param("lines", LINES)
+    c.returns(("rec", "CueSheetFile", {"bin_file_name": "str", "tracks": ("list", ("rec", "CueSheetTrack", {"mode": "str"}))}))
+    c.raises("BadCueSheet")
+
+
+@contract("os.path:join#abstract", abstract=True, assumed=True, note="os.path.join returns some path string")
+def _join(c):
+    c.param("a", "str")
+    c.param("b", "str")
+    c.returns("str")
+
+
+@contract("builtins:open#abstract", abstract=True, assumed=True, note="open(path, 'rb') returns a readable binary file (or raises OSError, not modelled)")
+def _open(c):
+    c.param("path", "str")
+    c.param("mode", "str")
+    c.returns(("rec", "OpenedFile", {"path": "str"}))
+    c.ensures("result.path == path")
+
+
+@contract("smpl_extract.actions:determine_image_type#abstract", abstract=True, assumed=True,
+          note="the sampler-image branch (MDF/MDX unwrapping, Roland / AKAI detection): its result is tagged kind 1 here")
+def _dit(c):
+    c.param("file", ("rec", "OpenedFile", {"path": "str"}))
+    c.returns(("rec", "OpenedImage", {"kind": "int", "path": "str"}))
+    c.ensures("result.kind == 1 and result.path == file.path")
+
+
+@contract("smpl_extract.cdda.image:CompactDiskAudioImageAdapter.from_bin_cue#abstract", abstract=True, assumed=False,
+          note="the CDDA branch (from_bin_cue has its own full contract, contracts/cdda.py): tagged kind 2 here")
+def _fbc(c):
+    c.param("bin_file_stream", ("rec", "OpenedFile", {"path": "str"}))
+    c.param("cue_sheet_file", ("rec", "CueSheetFile", {"bin_file_name": "str", "tracks": ("list", ("rec", "CueSheetTrack", {"mode": "str"}))}))
+    c.returns(("rec", "OpenedImage", {"kind": "int", "path": "str"}))
+    c.ensures("result.kind == 2 and result.path == bin_file_stream.path")
+
+
+@contract("smpl_extract.actions:attempt_parse_cue_sheet", props=["C09", "C17"])
+def _apcs(c):
+    c.param("lines", LINES)
+    c.param("directory", "str")
+    c.abstract_calls = {"parse_cue_sheet": "smpl_extract.cuesheet:parse_cue_sheet#abstract", "os.path.join": "os.path:join#abstract",
+                        "open": "builtins:open#abstract", "determine_image_type": "smpl_extract.actions:determine_image_type#abstract",
+                        "CompactDiskAudioImageAdapter.from_bin_cue": "smpl_extract.cdda.image:CompactDiskAudioImageAdapter.from_bin_cue#abstract"}
+    # BadCueSheet comes from the parser (a text that is no cue sheet) - never from a sheet that has a data track or only audio tracks
+    c.raises("BadCueSheet", "not defined('cue_sheet_file')", at_raise=True)
+    # the statement: all tracks audio -> CDDA; a data track -> sampler image (mode compared without regard to letter case)
+    c.ensures("implies(exists(0, len(cue_sheet_file.tracks), lambda k: py_lower(cue_sheet_file.tracks[k].mode) != 'audio'), result.kind == 1)",
+              "a-data-track-makes-it-a-sampler-image")
+    c.ensures("implies(forall(0, len(cue_sheet_file.tracks), lambda k: py_lower(cue_sheet_file.tracks[k].mode) == 'audio'), result.kind == 2)",
+              "all-audio-tracks-make-it-CDDA")
